@@ -70,6 +70,9 @@ def run_property(env, pid, tier, seed):
                 print("  at %s" % f.where())
     for f in kn:
         print("KNOWN-FINDING: property=%s %s :: %s" % (pid, f.key, f.msg.split("\n")[0][:200]))
+    selftest = None
+    if tier == "thorough" and not os.environ.get("VERIF_NO_SELFTEST") and os.path.abspath(env.repo) == "/repo":
+        selftest = run_selftest(pid)
     wall = time.time() - rep.t0
     ev = {
         "property_id": pid,
@@ -98,6 +101,7 @@ def run_property(env, pid, tier, seed):
             "known_findings": [f.key for f in kn],
             "violations": [f.key for f in viol],
             "extract_s": env.extract_s,
+            "selftest": selftest,
         },
         "assumptions": getattr(mod, "ASSUMPTIONS", []) + rep.assumptions,
         "wall_s": round(wall, 2),
@@ -110,6 +114,58 @@ def run_property(env, pid, tier, seed):
     print("%s tier=%s obligations=%d discharged=%d known=%d violations=%d wall=%.1fs" % (
         pid, tier, rep.obligations, rep.discharged, len(kn), len(viol), wall))
     return len(viol)
+
+
+def run_selftest(pid):
+    """thorough tier: the rule instances are exercised on the mutant corpus
+    (must fire) and on the refactor corpus (must stay silent).  Outcomes are
+    evidence about the checker; they do not change the verdict on /repo."""
+    import concurrent.futures as cf
+    import subprocess
+    import tempfile
+    import shutil
+    out = {"mutants": {}, "refactors": {}}
+    mdir, rdir = os.path.join(VERIF, "mutants"), os.path.join(VERIF, "refactors")
+    jobs = []
+    try:
+        midx = json.load(open(os.path.join(mdir, "index.json")))
+        for n, m in sorted(midx.items()):
+            if pid in m.get("expect", []):
+                jobs.append(("mutants", n, os.path.join(mdir, n + ".diff")))
+    except Exception:
+        pass
+    try:
+        ridx = json.load(open(os.path.join(rdir, "index.json")))
+        for n in sorted(ridx):
+            jobs.append(("refactors", n, os.path.join(rdir, n + ".diff")))
+    except Exception:
+        pass
+
+    def one(kind, name, patch):
+        work = tempfile.mkdtemp(prefix="st-", dir=os.environ.get("VERIF_WORK") or tempfile.gettempdir())
+        try:
+            scratch = os.path.join(work, "repo")
+            shutil.copytree("/repo", scratch, ignore=shutil.ignore_patterns("target", ".git"))
+            p = subprocess.run(["patch", "-p1", "-s", "-i", patch], cwd=scratch, capture_output=True, text=True)
+            if p.returncode != 0:
+                return kind, name, "skipped (patch no longer applies)"
+            e2 = dict(os.environ, VERIF_EVIDENCE_DIR=os.path.join(work, "ev"), VERIF_NO_SELFTEST="1", PYTHONHASHSEED="0")
+            r = subprocess.run([sys.executable, os.path.join(HERE, "check.py"), pid, "--tier", "quick", "--repo", scratch],
+                               capture_output=True, text=True, env=e2)
+            if kind == "mutants":
+                return kind, name, "reported" if r.returncode == 1 else "MISSED"
+            return kind, name, "silent" if r.returncode == 0 else "FALSE ALARM"
+        finally:
+            shutil.rmtree(work, ignore_errors=True)
+    with cf.ThreadPoolExecutor(max_workers=12) as ex:
+        for kind, name, res in ex.map(lambda j: one(*j), jobs):
+            out[kind][name] = res
+    bad = [n for n, r in out["mutants"].items() if r == "MISSED"] + [n for n, r in out["refactors"].items() if r == "FALSE ALARM"]
+    out["summary"] = "mutants reported %d/%d, refactors silent %d/%d" % (
+        sum(1 for r in out["mutants"].values() if r == "reported"), len(out["mutants"]),
+        sum(1 for r in out["refactors"].values() if r == "silent"), len(out["refactors"]))
+    print("SELFTEST %s: %s%s" % (pid, out["summary"], (" ; attention: " + ", ".join(bad)) if bad else ""))
+    return out
 
 
 def main():
